@@ -387,7 +387,8 @@ class StmtMixin:
         r = fresh(T.List(et), "comp")
         ym = fresh(et, "cm")
         # membership characterisation: y in r  <=>  y == body(i) for some (passing) source position i
-        st.assume(z3.ForAll([ym], z3.Implies(z3.Contains(r, z3.Unit(ym)), z3.Exists([i], z3.And(guard, *conds, ym == lift(body))))))
+        if getattr(self.c, "comp_membership", False):
+            st.assume(z3.ForAll([ym], z3.Implies(z3.Contains(r, z3.Unit(ym)), z3.Exists([i], z3.And(guard, *conds, ym == lift(body))))))
         if not conds:
             st.assume(z3.Length(r) == info.n)
             st.assume(z3.ForAll([i], z3.Implies(guard, r[i] == lift(body))))
